@@ -5,6 +5,8 @@
 EXTENDS Trie, Json, Randomization
 
 CONSTANTS Mode,        \* "mc" | "edges" | "sim"
+          SeqBatches,  \* FALSE: leave out batches that take the sequential fallback (they are
+                       \* compositions of Put/Del steps and add no new states, only cost)
           Depth,       \* sim: length of the emitted behaviours
           NBatch       \* sim: number of random candidate batches offered per step
 
@@ -35,30 +37,33 @@ MCBatchSet == UNION {[1..n -> BOps] : n \in BatchLens}
 SimBatchSet == UNION {RandomSubset(NBatch, [1..n -> AllOps]) : n \in BatchLens}
 
 (* concrete operation pools (cfg files cannot write records) *)
-K2(a, b) == <<a, b>>
-Ops2x2 == [k : Keys, v : Vals \cup {0}]
+OpsAll == [k : Keys, v : Vals \cup {0}]
 OpsIns == [k : Keys, v : Vals]
+(* four keys in three first-nibble groups, put and delete *)
+OpsPool == [k : {<<0, 0>>, <<0, 1>>, <<1, 0>>, <<15, 1>>}, v : Vals \cup {0}]
 
 (* ------------------------------- actions -------------------------------- *)
-Log(e) == hist' = IF Mode = "sim" THEN Append(hist, e) ELSE hist
+(* sim: remember the raw successor, converted to its JSON view only when printed *)
+Log    == hist' = IF Mode = "sim" THEN Append(hist, [act |-> act', kv |-> kv', tree |-> tree']) ELSE hist
 Exp    == [kv |-> KVList(kv'), tree |-> TreeJ(tree')]
+HistJ  == [i \in 1..Len(hist) |-> [act |-> hist[i].act, exp |-> [kv |-> KVList(hist[i].kv), tree |-> TreeJ(hist[i].tree)]]]
 
 MCInit == Init /\ act = [op |-> "init"] /\ hist = <<>> /\ cur = <<>>
 
 MCNext ==
   \/ \E k \in Keys : \E v \in Vals :
-        Put(k, v) /\ act' = [op |-> "put", k |-> k, v |-> v] /\ Log([act |-> act', exp |-> Exp]) /\ UNCHANGED cur
+        Put(k, v) /\ act' = [op |-> "put", k |-> k, v |-> v] /\ Log /\ UNCHANGED cur
   \/ \E k \in Keys : \E viaUpdate \in BOOLEAN :
         Del(k) /\ act' = [op |-> IF viaUpdate THEN "putempty" ELSE "del", k |-> k, v |-> 0]
-               /\ Log([act |-> act', exp |-> Exp]) /\ UNCHANGED cur
+               /\ Log /\ UNCHANGED cur
   \/ \E ops \in BatchSet :
-        \/ BatchSeq(ops) /\ act' = [op |-> "batch", ops |-> ops, par |-> FALSE]
-                         /\ Log([act |-> act', exp |-> Exp]) /\ UNCHANGED cur
+        \/ SeqBatches /\ BatchSeq(ops) /\ act' = [op |-> "batch", ops |-> ops, par |-> FALSE]
+                         /\ Log /\ UNCHANGED cur
         \/ BatchPar(ops) /\ act' = [op |-> "batchstart", ops |-> ops, par |-> TRUE]
                          /\ cur' = ops /\ UNCHANGED hist
   \/ \E i \in Nib : Worker(i) /\ act' = [op |-> "worker", i |-> i] /\ UNCHANGED <<hist, cur>>
   \/ BatchEnd /\ act' = [op |-> "batch", ops |-> cur, par |-> TRUE]
-              /\ Log([act |-> act', exp |-> Exp]) /\ cur' = <<>>
+              /\ Log /\ cur' = <<>>
 
 MCSpec == MCInit /\ [][MCNext]_mcvars
 
@@ -75,6 +80,6 @@ Edge ==
        ELSE PrintT(<<"EDGE", ToJson([from |-> KVList(kv), act |-> act', to |-> Exp])>>)
 
 (* sim mode: print the behaviour once it has Depth user-level steps *)
-Emit == IF Mode = "sim" /\ Len(hist) = Depth /\ Quiescent THEN PrintT(<<"MBT", ToJson(hist)>>) ELSE TRUE
+Emit == IF Mode = "sim" /\ Len(hist) = Depth /\ Quiescent THEN PrintT(<<"MBT", ToJson(HistJ)>>) ELSE TRUE
 SimStop == Len(hist) <= Depth
 =============================================================================
